@@ -152,7 +152,7 @@ func runC06(seed uint64, n int, outDir string, replay string) {
 					o.Pad("panic %v", p)
 				}
 			}()
-			w, err := newWorld(rawdb.NewMemoryDatabase(log.Global), rc, rg, zoneOpts{})
+			w, err := newWorld(newMemDB(), rc, rg, zoneOpts{})
 			if err != nil {
 				panic(err)
 			}
